@@ -237,7 +237,7 @@ Relation == IF l = r THEN "same_type" ELSE IF IsSub(r, l) THEN "right_is_subclas
 
 K4 == {"C", "S", "O", "D"}
 K5 == {"C", "S", "T", "O", "D"}
-PairsRefQuick == ({"C", "S", "P"} \X {"C", "S", "P"}) \cup {<<"C", "O">>, <<"O", "C">>, <<"O", "S">>}
+PairsRefQuick == {<<"C", "C">>, <<"C", "S">>, <<"S", "C">>, <<"S", "P">>, <<"C", "O">>, <<"O", "S">>}
 PairsStrict == {<<"C", "C">>}
 NoPairs == {}
 PairsQuick == {<<x, y>> \in K4 \X K4 : ~(x = "O" /\ y = "O")}
